@@ -20,12 +20,17 @@ Independent oracle (pure python over the generator's data, evaluated on the impl
   manifest   - the last entry is the root; the other entries are exactly the declared products of the closure, each
                once; simulating the install loop over the entries (an `installed` set) no product is installed before
                a product its table asks for that is in the manifest, unless the two lie on a common cycle;
-  cli        - the first line is the root (when the depth test admits depth 0); the lines name exactly the closure
-               (when the closure holds two products of one name the command prints one line per NAME - app.py keys its
-               table of printed products by the name - so there the lines must be part of the closure and name every
-               product name of it: counted as cli/one-line-per-name, see the report of the round); with --topological
-               every printed product comes after the printed products that need it (outside cycles); --depth keeps
-               exactly the lines whose depth passes the test.
+  cli        - the first line is the root (when the depth test admits depth 0); the lines name exactly the closure, on
+               every closure - two versions of one name included (the pinned tree printed one line per NAME:
+               proposed_fixes/C13-list-prints-every-version, witness corpus/C13/cli-one-line-per-name.json; such closures
+               are counted as cli/.../two-versions-of-a-name); with --topological every printed product comes after
+               the printed products that need it (outside cycles); --depth keeps exactly the lines whose depth passes.
+
+Two-flavor family (run_flavor_family): small graphs whose products are declared under the running flavor Linux64 or the
+fall-back flavor generic (all versions of a name under one flavor); the world of the model comes from the generator's
+data alone (stackgen.resolve: no edge is fed); the real manifest of every root against the model's and the manifest
+oracle, the API listing against the model's.  The pinned _createDeps looked listed products up under the running flavor
+only (proposed_fixes/C13-createdeps-fallback-flavor, witness corpus/C13/manifest-fallback-flavor.json).
 """
 import io
 import os
@@ -270,17 +275,10 @@ def oracle_cli(spec, g, reach, root, var, val, api):
         want = set(q for q in closure if any(depth_pass(flt, d) for d in depths.get(q, ())))
     else:
         want = None
-    names_unique = len(set(n for n, _ in closure)) == len(closure)
     got = set(deps)
-    if want is not None:
-        if names_unique:
-            if got != want:
-                bad.append(("cli-closure", focus, sorted(want, key=repr), sorted(got, key=repr),
-                            "eups list %s: missing %s, extra %s" % (" ".join(val["args"]), sorted(want - got, key=repr), sorted(got - want, key=repr))))
-        else:
-            if not got <= want or set(n for n, _ in got) != set(n for n, _ in want):
-                bad.append(("cli-closure", focus, sorted(want, key=repr), sorted(got, key=repr),
-                            "eups list %s prints a product outside the listing or omits a product name" % " ".join(val["args"])))
+    if want is not None and got != want:
+        bad.append(("cli-closure", focus, sorted(want, key=repr), sorted(got, key=repr),
+                    "eups list %s: missing %s, extra %s" % (" ".join(val["args"]), sorted(want - got, key=repr), sorted(got - want, key=repr))))
     if topo:
         pos = {q: i for i, q in enumerate(deps)}
         pos[root] = -1
@@ -308,9 +306,9 @@ def cli_from_api(root, var, api):
     for x in api["ok"]:
         if not depth_pass(flt, x[3]):
             continue
-        if x[0] in seen:
+        if (x[0], x[1]) in seen:
             continue
-        seen.add(x[0])
+        seen.add((x[0], x[1]))
         out.append([x[0], x[1]])
     return out
 
@@ -365,8 +363,184 @@ def compare(ctx, spec, impl, model, g, reach):
                     ctx.disagree(dict(case, focus={"root": list(root), "cli": var[0]}), exp, cv, where="eups list --dependencies against the API listing")
             fl = oracle_cli(spec, g, reach, root, var, cv, api)
             fails += fl
-            one_per_name = len(set(n for n, _ in closure)) != len(closure)
-            ctx.count(1, key="cli/%s%s" % (var[0], "/one-line-per-name" if one_per_name else ""))
+            two = len(set(n for n, _ in closure)) != len(closure)
+            ctx.count(1, key="cli/%s%s" % (var[0], "/two-versions-of-a-name" if two else ""))
     for kind, focus, exp, obs, what in fails:
         ctx.fail(kind, dict(case, focus=focus), expected=exp, observed=obs, what=what)
     return fails
+
+
+# ------------------------------------------------------------------ two flavors
+
+GENERIC = "generic"
+
+
+def gen_flavor_spec(rng):
+    """a small graph some of whose product names are declared under the fall-back flavor"""
+    spec = stackgen.gen_spec(rng, nprod=rng.randint(3, 6), shape=rng.choice(["chain", "diamond", "dag", "stubby", "twover", "tree"]))
+    names = sorted(set(p["name"] for p in spec["products"]))
+    gen = set(n for n in names if rng.random() < 0.5)
+    if not gen:
+        gen = {rng.choice(names)}
+    for p in spec["products"]:
+        p["flavor"] = GENERIC if p["name"] in gen else stackgen.FLAVOR
+    spec["shape"] = "two-flavors/" + spec["shape"]
+    return spec
+
+
+def _materialise_flavored(spec, root):
+    eups = common.import_eups()
+    os.makedirs(os.path.join(root, "ups_db"), exist_ok=True)
+    dirs = stackgen.write_product_dirs(spec, root)
+    es = {}
+    for p in spec["products"]:
+        f = p.get("flavor", stackgen.FLAVOR)
+        if f not in es:
+            es[f] = eups.Eups(quiet=1, flavor=f)
+        d = dirs[stackgen.pkey(p)]
+        es[f].declare(p["name"], p["version"], d, eupsPathDir=root, tablefile=os.path.join(d, "ups", p["name"] + ".table"),
+                      tag="current" if p.get("current") else None)
+    cur = stackgen.current_of(spec)
+    for p in spec["products"]:
+        f = p.get("flavor", stackgen.FLAVOR)
+        if cur.get(p["name"]) != p["version"]:
+            prod = es[f].findProduct(p["name"], p["version"], flavor=f)
+            if prod is not None and prod.isTagged("current"):
+                es[f].unassignTag("current", p["name"], p["version"], eupsPathDir=root)
+
+
+def impl_flavor_one(spec):
+    import shutil
+    import importlib
+    base = common.scratch_dir()
+    try:
+        root, ud = os.path.join(base, "stack"), os.path.join(base, "userdata")
+        os.makedirs(os.path.join(ud, "ups_db"))
+        os.makedirs(root)
+        os.environ.clear()
+        os.environ.update(stackgen.stack_environ(root, ud))
+        stackgen.reset_singletons()
+        _materialise_flavored(spec, root)
+        stackgen.reset_singletons()
+        eups = common.import_eups()
+        from eups import utils
+        e = stackgen.new_eups()
+        out = {"mani": {}, "topo": {}}
+        for i, p in enumerate(roots_of(spec)):
+            key = "%s %s" % (p["name"], p["version"])
+            top = None
+            for f in utils.Flavor().getFallbackFlavors(e.flavor, includeMe=True):   # as Eups.setup looks
+                top = e.findProduct(p["name"], p["version"], flavor=f)
+                if top:
+                    break
+            try:
+                r = e.getDependentProducts(top, topological=True)
+                out["topo"][key] = {"ok": [[q.name, q.version, bool(o), d, q.flavor is not None] for q, o, d in r]}
+            except Exception as ex:  # noqa
+                out["topo"][key] = {"exc": type(ex).__name__, "msg": str(ex)[:200]}
+            kind = DISTRIBS[i % len(DISTRIBS)]
+            mod = importlib.import_module("eups.distrib." + kind)
+            try:
+                d = mod.Distrib(e, None, flavor=e.flavor, verbosity=0, log=io.StringIO())
+                ents = d.createDependencies(p["name"], p["version"], e.flavor).getProducts()
+                val = {"ok": [[x.product, x.version, bool(x.isOpt)] for x in ents],
+                       "filled": all(x.tablefile not in (None, "none") and x.distId and x.flavor == e.flavor for x in ents)}
+            except Exception as ex:  # noqa
+                val = {"exc": type(ex).__name__, "msg": str(ex)[:200]}
+            val["distrib"] = kind
+            out["mani"][key] = val
+        return out
+    finally:
+        shutil.rmtree(base, ignore_errors=True)
+
+
+def impl_flavor_chunk(specs):
+    if not os.environ.get("EUPS_VERIF_DEBUG"):
+        null = os.open(os.devnull, os.O_WRONLY)
+        os.dup2(null, 2)
+    res = []
+    for s in specs:
+        try:
+            res.append(impl_flavor_one(s))
+        except Exception as ex:  # noqa
+            import traceback
+            res.append({"child_error": [type(ex).__name__, str(ex)[:500], traceback.format_exc()[-1500:]]})
+    return res
+
+
+def flavor_corpus():
+    import json
+    d = os.path.join(common.ROOT, "corpus", "C13")
+    out = []
+    for f in sorted(os.listdir(d)) if os.path.isdir(d) else []:
+        if f.endswith(".json"):
+            inp = json.load(open(os.path.join(d, f)))["input"]
+            if "flavor_spec" in inp:
+                out.append(inp["flavor_spec"])
+    return out
+
+
+def run_flavor_specs(ctx, specs, enc_world, dec_entries, dec_nodes, ref_graph, reach_plus, nproc=None):
+    for s in specs:
+        stackgen.normalise(s)
+    impls = stackgen.run_parallel(impl_flavor_chunk, specs, nproc=nproc)
+    lines, spans = [], []
+    for s in specs:
+        res = stackgen.resolve(s)
+        edges = {}
+        for p in s["products"]:
+            rows = [[n, d.get("version"), (v if ok else None), o] for (n, v, ok, o), d in zip(res[stackgen.pkey(p)], p["deps"])]
+            edges["%s %s" % stackgen.pkey(p)] = rows + [["implicitProducts", None, None, True]]
+        w = enc_world(s, edges)
+        ls = []
+        for p in roots_of(s):
+            ls.append("\t".join(["mani", w, enc(p["name"]), enc(p["version"])]))
+            ls.append("\t".join(["deps", w, enc(p["name"]), enc(p["version"]), "1"]))
+        spans.append((len(lines), len(ls)))
+        lines += ls
+    outs = ctx.model(lines)
+    for s, impl, (a, n) in zip(specs, impls, spans):
+        if "child_error" in impl:
+            raise RuntimeError("implementation driver failed on a two-flavor stack: %r" % (impl["child_error"],))
+        case = {"flavor_spec": s}
+        g = ref_graph(s)
+        reach = {x: reach_plus(g, x) for x in g}
+        mo = outs[a:a + n]
+        for j, p in enumerate(roots_of(s)):
+            root = stackgen.pkey(p)
+            key = "%s %s" % root
+            mm = model_decode([("mani", root[0], root[1], None)], [mo[2 * j]], dec_nodes)["mani"][key]
+            f = mo[2 * j + 1].split("\t")
+            ml = {"ok": dec_entries(f[1] if len(f) > 1 else "")} if f[0] == "ok" else {"err": f[1] if len(f) > 1 else mo[2 * j + 1]}
+            il = impl["topo"][key]
+            if (il if "ok" in il else {"exc": il.get("exc")}) != ml:
+                ctx.disagree(dict(case, focus={"root": list(root)}), ml, il, where="two flavors: topological listing")
+            iv = impl["mani"][key]
+            ic = {"ok": iv["ok"]} if "ok" in iv else \
+                {"err": {"ProductNotFound": "NotFound", "EupsException": "Undefined"}.get(iv.get("exc"), "exc:%s" % iv.get("exc"))}
+            mc = {"ok": mm["ok"]} if "ok" in mm else {"err": mm["err"]}
+            if ic != mc:
+                ctx.disagree(dict(case, focus={"root": list(root), "createDependencies": iv.get("distrib")}), mc, iv,
+                             where="two flavors: createDependencies")
+            if "ok" in iv and not iv.get("filled"):
+                ctx.disagree(dict(case, focus={"root": list(root)}), "every entry with its table file, distribution id and flavor", iv,
+                             where="two flavors: updateDependencies left an entry without its table file")
+            fails = oracle_manifest(s, g, reach, root, iv)
+            # the property: a declared product whose listed dependencies are all declared (or optional) has a manifest
+            if "ok" not in iv and "ok" in mm:
+                fails.append(("manifest-refused", {"root": list(root), "createDependencies": True}, mm["ok"], iv,
+                              "createDependencies(%s %s) raised %s although every required product of its listing is declared"
+                              % (root + (iv.get("exc"),))))
+            for kind, focus, exp, obs, what in fails:
+                ctx.fail(kind, dict(case, focus=focus), expected=exp, observed=obs, what=what)
+            closure = reach[root] - {root}
+            flv = {stackgen.pkey(q): q.get("flavor", stackgen.FLAVOR) for q in s["products"]}
+            shape = "root-%s/%s" % (flv[root], "reaches-generic" if any(flv.get(q) == GENERIC for q in closure) else "one-flavor")
+            ctx.count(1, key="manifest/two-flavors/%s" % shape)
+
+
+def run_flavor_family(ctx, n, **kw):
+    specs = flavor_corpus()
+    for _ in range(n):
+        specs.append(gen_flavor_spec(ctx.rng))
+    run_flavor_specs(ctx, specs, **kw)
